@@ -1442,6 +1442,10 @@ def getattr_(ex, obj, name):
         if name in ('index', 'count'):
             return NativeMethod(obj, name)
         ex.throw('AttributeError', "'tuple' object has no attribute %r" % name)
+    if isinstance(obj, CondVal) and name in ('notified', 'waits'):
+        return getattr(obj, name)       # ghost counters (spec only)
+    if isinstance(obj, LockVal) and name == 'held':
+        return obj.held
     if isinstance(obj, (LockVal, CondVal)):
         return NativeMethod(obj, name)
     if is_num(obj):
